@@ -57,7 +57,7 @@ pub fn gen_slts_case(g: &mut Gen, _tier: Tier, allow_dummy: bool) -> TrainCase {
     // 25 %: start further along the first link
     let room = links[0].length - tp.length - 100.0;
     let init_offset_extra = if g.bool(0.25) && room > 50.0 { Gen::round(g.f64(1.0, room), 1) } else { 0.0 };
-    TrainCase { links, train, mode, trace: vec![], save_interval: Some(1), simulation_days: None, init_speed_zero: false, also_real_walk, scenario_year: None, and_parts: false, init_offset_extra, hand_assembled: false, init_offset_abs: None }
+    TrainCase { links, train, mode, trace: vec![], save_interval: Some(1), simulation_days: None, init_speed_zero: false, also_real_walk, scenario_year: None, and_parts: false, init_offset_extra, hand_assembled: false, init_offset_abs: None, timed_speed: 0.0 }
 }
 
 pub fn speed_case_of(case: &TrainCase) -> SpeedCase {
@@ -366,7 +366,7 @@ fn check_timed(dc: &crate::props::corridor::DispatchCase, cx: &mut Ctx) {
         let spec = &dc.trains[ti].train;
         let route: Vec<usize> = path.iter().map(|p| p.link_idx.idx()).collect();
         let links = route_specs(&dc.net, &b.corridor, &route, spec.train_type);
-        let tc = TrainCase { links, train: spec.clone(), mode: 3, trace: vec![], save_interval: Some(1), simulation_days: None, init_speed_zero: false, also_real_walk: false, scenario_year: None, and_parts: false, init_offset_extra: 0.0, hand_assembled: false, init_offset_abs: None };
+        let tc = TrainCase { links, train: spec.clone(), mode: 3, trace: vec![], save_interval: Some(1), simulation_days: None, init_speed_zero: false, also_real_walk: false, scenario_year: None, and_parts: false, init_offset_extra: 0.0, hand_assembled: false, init_offset_abs: None, timed_speed: 0.0 };
         let mut sim = b.slts[ti].clone();
         sim.set_save_interval(Some(1));
         let mut run = TrainRun::empty_pub();
